@@ -60,7 +60,10 @@ def run(tier):
         # the casts and round trips again under guest ABIs whose pointers are 16-bit, or as wide as
         # the host's while still being offsets from the sandbox base
         fdrvs = vp.build_many([("cast_driver_lp64u", ["cast_driver.cpp"], dflags + ["-DABI_LP64U"], "-O1"),
-                               ("cast_driver_lp16", ["cast_driver.cpp"], dflags + ["-DABI_LP16"], "-O1")])
+                               ("cast_driver_lp16", ["cast_driver.cpp"], dflags + ["-DABI_LP16"], "-O1"),
+                               # unoptimised: every conversion the source spells out is really executed (an
+                               # optimiser removes exact round trips, e.g. through a wider floating-point type)
+                               ("cast_driver_O0", ["cast_driver.cpp"], dflags, "-O0")])
         for nm, fd in sorted(fdrvs.items()):
             fpath = os.path.join(wd, nm + ".ndjson")
             p = vp.run([fd, fpath, str(seeds[0])], timeout=600)
